@@ -87,8 +87,8 @@ F_Leaves ==
                               Mem("B"), Mem("C"), Mem("I"), Mem("Any"), Mem("S"), Mem("P"), Mem("I64"), Mem("G")}
     [] Family = "string" -> Strs({"a", "abc", "^ab", "c$", "("}) \cup {Mem("S"), Mem("T"), Mem("Any")} \cup Ints({0, 1, 5})
     [] Family = "coll"   -> Ints({0, 1, 2, 4}) \cup Strs({"a", "z", "N"}) \cup {Neg1, L(NNil, "nil"),
-                              Mem("Xs"), Mem("Ss"), Mem("Anys"), Mem("M"), Mem("MA"), Mem("S"), Mem("I"), Mem("O"), Mem("P"), Mem("Any")}
-    [] Family = "access" -> Ints({1, 2}) \cup Strs({"a"}) \cup {Mem("O"), Mem("P"), Mem("Os"), Mem("Ps"), Mem("I"), Mem("S"), Mem("Xs"), Mem("Anys"), Mem("F")}
+                              Mem("Xs"), Mem("Ss"), Mem("Anys"), Mem("M"), Mem("MA"), Mem("S"), Mem("I"), Mem("O"), Mem("P"), Mem("Any"), Mem("F")}
+    [] Family = "access" -> Ints({1, 2}) \cup Strs({"a"}) \cup {L(NNil, "nil"), Mem("O"), Mem("P"), Mem("Os"), Mem("Ps"), Mem("I"), Mem("S"), Mem("Xs"), Mem("Anys"), Mem("F")}
     [] Family = "builtin" -> Ints({0, 1, 2}) \cup Strs({"a"}) \cup {Mem("Xs"), Mem("Ys"), Mem("I"), Mem("Os"), Mem("Ss"),
                               L(NBool(TRUE), "bool"), L(NBool(FALSE), "bool")}
     [] Family = "nest"   -> Ints({1}) \cup {Mem("Xs"), Mem("Ys")}      \* closures nested three deep
@@ -96,7 +96,9 @@ F_Leaves ==
                               Mem("I"), Mem("B"), Mem("S"), Mem("Xs"), Mem("F"), Mem("O"), Mem("P"), Mem("M"), Mem("Any")}
     [] Family = "alloc"  -> Ints({0, 1, 3}) \cup {Mem("I"), Mem("J"), Mem("Xs")}
     [] Family = "calls"  -> Ints({1}) \cup {L(NNil, "nil"), Mem("I"), Mem("P")}
-    [] Family = "inlit"  -> Ints({1, 2}) \cup Strs({"a"}) \cup {Mem("I64"), Mem("F"), Mem("K"), Mem("Big")}
+    [] Family = "inlit"  -> Ints({1, 2, 300}) \cup Strs({"a"}) \cup {Mem("I64"), Mem("F"), Mem("K"), Mem("Big"), Mem("U8")}
+    [] Family = "ovlt"   -> {Mem("I"), Mem("F")}             \* several overloaded occurrences of different operand types
+    [] Family = "nest2"  -> Ints({1}) \cup Strs({"a"}) \cup {Mem("Ss"), Mem("Xs")}   \* nested closures over different element types
     [] Family = "cexpr"  -> Ints({1}) \cup Strs({"1", "a"}) \cup {L(NFloat("1.0", 1, 0), "float64"), Mem("I")}
     [] Family = "rng"    -> Ints({1, 3}) \cup {Mem("I"), Mem("J")}
     [] Family = "order"  -> Ints({0, 1, 2}) \cup {Mem("Xs"), Mem("I"), Mem("F"), Mem("S"), Mem("I64")}
@@ -129,6 +131,8 @@ F_BinOps ==
     [] Family = "cexpr"  -> {"+"}
     [] Family = "rng"    -> {".."}
     [] Family = "nest"   -> {">"}
+    [] Family = "ovlt"   -> {"+", "*"}
+    [] Family = "nest2"  -> {">", "==", "and"}
     [] Family = "order"  -> {"in", "not in", ".."}
     [] Family = "laws"   -> {">", "==", "%", "/", "and", "in", ".."}
     [] Family = "ovl"    -> {"+", "*", "==", ">"}
@@ -172,6 +176,7 @@ F_Builtins ==
     [] Family = "oversize" -> {"all", "filter", "map", "count"}
     [] Family = "laws" -> {"all", "any"}
     [] Family = "nest" -> {"all", "any", "one", "count", "map"}
+    [] Family = "nest2" -> {"all", "any"}
     [] Family = "ovl" -> {"map", "filter", "all"}
     [] OTHER -> {}
 
@@ -185,7 +190,7 @@ F_ArrLens == CASE Family \in {"coll", "mixed", "alloc"} -> {0, 1, 2} [] Family \
                [] Family = "cexpr" -> {1, 2}
                [] Family = "inlit" -> {1, 3} [] Family = "ovconst" -> {3} [] OTHER -> {}
 F_MapLens == CASE Family = "coll" -> {0, 1, 2} [] Family \in {"mixed", "alloc", "ovl"} -> {1} [] OTHER -> {}
-F_ElemLeaves == Family \in {"builtin", "mixed", "alloc", "oversize", "laws", "ovl", "nest"}
+F_ElemLeaves == Family \in {"builtin", "mixed", "alloc", "oversize", "laws", "ovl", "nest", "nest2"}
 F_OrderGuard == Family # "order"
 
 (* Constructs whose outcome on the pinned tree is a catalogued deviation     *)
@@ -263,7 +268,16 @@ CaseTags(t) ==
   \cup (IF HasMapFilter(t) THEN {"map-filter-result"} ELSE {})
   \cup (IF HasLitArray(t) THEN {"literal-array"} ELSE {})
 
-Case == [src |-> Src(Tree), ty |-> TreeTy, n |-> n, typed |-> FullyTyped(Tree, ""), tags |-> CaseTags(Tree), cdz |-> HasConstDivZero(Tree), cbp |-> HasConstBadPattern(Tree), runs |-> Runs(Tree)]
+(* C14: for `A op B` over two numeric members, the kind both operands are converted to (the higher rank), *)
+(* by the reference rank and by the rank of the pinned implementation                                     *)
+PromoRule(t) ==
+  IF t.k = "bin" /\ t.l.k = "id" /\ t.r.k = "id" /\ MemberType[t.l.name] \in NumKinds /\ MemberType[t.r.name] \in NumKinds
+  THEN [a |-> MemberType[t.l.name], b |-> MemberType[t.r.name], op |-> t.op,
+        k |-> Higher(MemberType[t.l.name], MemberType[t.r.name], {}),
+        kdev |-> Higher(MemberType[t.l.name], MemberType[t.r.name], {"Dev_RankIntBelowInt8"})]
+  ELSE [a |-> "", b |-> "", op |-> "", k |-> "", kdev |-> ""]
+
+Case == [src |-> Src(Tree), ty |-> TreeTy, n |-> n, typed |-> FullyTyped(Tree, ""), tags |-> CaseTags(Tree), promo |-> PromoRule(Tree), cdz |-> HasConstDivZero(Tree), cbp |-> HasConstBadPattern(Tree), runs |-> Runs(Tree)]
 
 (* C18: the defining identities of the collection builtins, of membership in *)
 (* an integer range and of slicing.  A complete tree of one of the root      *)
